@@ -24,6 +24,7 @@ type GenOpts struct {
 	CompactHeavy bool     // phases of: fill segments with live + overwritten records, compact, a few writes
 	Fresh        []string // pool of never-used keys (same hash classes): bursts after restarts, swap sessions
 	Sessions     bool     // restart-centred patterns: compaction-only sessions, equal-count sessions, bursts after reopen
+	Huge         bool     // now and then a value of a few MiB
 	Tear         bool     // simulated unclean shutdowns with a torn tail
 	AfterCompact bool     // C15: Sync, Put, Delete, Backup after every Compact
 	Open2        bool     // competing Open calls while the database is open
@@ -51,6 +52,9 @@ func GenProgram(rng *rand.Rand, id string, cfg Cfg, g GenOpts) *Program {
 			case 4:
 				return tag, 1000 + rng.Intn(1200)
 			}
+		}
+		if rng.Intn(12) == 0 {
+			return "", 0 // an empty value
 		}
 		return tag, 0
 	}
@@ -199,6 +203,12 @@ func GenProgram(rng *rand.Rand, id string, cfg Cfg, g GenOpts) *Program {
 			}
 			continue
 		}
+		if g.Huge && rng.Intn(60) == 0 {
+			k := pick()
+			p.Ops = append(p.Ops, Op{Op: "put", K: k, V: fmt.Sprintf("H%d_", len(p.Ops)), VL: (2 + rng.Intn(3)) << 20}, Op{Op: "get", K: k}, Op{Op: "items"})
+			live[k] = true
+			continue
+		}
 		switch {
 		case x < 42:
 			k := pick()
@@ -217,7 +227,11 @@ func GenProgram(rng *rand.Rand, id string, cfg Cfg, g GenOpts) *Program {
 				case 0:
 					p.Ops = append(p.Ops, Op{Op: "get", K: pickLive()})
 				case 1:
-					p.Ops = append(p.Ops, Op{Op: "getappend", K: pickLive(), Buf: "buf:"})
+					buf := "buf:"
+					if rng.Intn(2) == 0 {
+						buf = "" // nil buffer
+					}
+					p.Ops = append(p.Ops, Op{Op: "getappend", K: pickLive(), Buf: buf})
 				case 2:
 					p.Ops = append(p.Ops, Op{Op: "has", K: pickLive()})
 				case 3:
